@@ -34,7 +34,7 @@ def exec_SC(t):
         kw = dict(rounding=r, overflow=o, scale=num(sc, sp), bias=num(bi, sp))
         lo, hi = lims(s, n)
         safe = all(lo + 1 <= (v - bi) / sc * 2 ** f <= hi - 1 for v in vs)     # no overflow whatever the rounding
-        h = hist_of(n, f, len(vs), *[int(v * 8) % 1009 for v in vs]) % 5
+        h = hist_of(n, f, len(vs), *[int(v * 8) % 1009 for v in vs]) % 6
         # "an object created with scale s and bias b" keeps them through its life: direct construction, a later store,
         # a resize that keeps n_frac (narrowing a wider word), a resize to its own dtype, or both
         if h == 1:
@@ -53,6 +53,10 @@ def exec_SC(t):
             _ = x.get_val()
         else:
             x = Fxp(v_in, s, n, f, **kw)
+            if h == 5:
+                # the object's own codes are stored once more as codes (raw): nothing changes — it still is the scaled object it was created as
+                cs = codes_of(x)
+                x.set_val(cs[0] if len(cs) == 1 else np.array(cs, dtype=np.int64), raw=True)
         st = x.status
         gv = [tok_exact(v) for v in flat(x.get_val())]
         return [tok_list([str(c) for c in codes_of(x)]), tok_list(gv), tok_exact(x.upper), tok_exact(x.lower), tok_exact(x.precision),
